@@ -42,7 +42,7 @@ class C07(Check):
     required_probes = {'thorough': ['array_update', 'wildcard_update', 'node_values', 'edge_update', 'shared_nt']}
 
     def strata(self, tier):
-        return [('S-update_var', 4), ('S-apply-values', 3), ('S-edges', 2), ('S-mixed', 3), ('S-compile-between', 1)]
+        return [('S-update_var', 4), ('S-apply-values', 3), ('S-edges', 2), ('S-mixed', 3), ('S-compile-between', 1), ('S-failed-compile', 2)]
 
     def generate(self, rng, stratum, tier):
         spec = models.gen_aliased(rng, build=rng.choice(['python', 'python', 'yaml']))
@@ -55,7 +55,8 @@ class C07(Check):
         ops = []
         kinds = {'S-update_var': ['one', 'all', 'arr', 'sub'], 'S-apply-values': ['nv', 'nv', 'one', 'ev'],
                  'S-edges': ['edge', 'ev', 'one', 'derive', 'edge'], 'S-compile-between': ['nv', 'ev', 'one', 'all'],
-                 'S-mixed': ['one', 'all', 'arr', 'sub', 'nv', 'ev', 'edge', 'copy', 'derive', 'adapt', 'adapt']}[stratum]
+                 'S-failed-compile': ['fc', 'fc', 'one', 'one', 'all', 'sub'],
+                 'S-mixed': ['one', 'all', 'arr', 'sub', 'nv', 'ev', 'edge', 'copy', 'derive', 'adapt', 'adapt', 'fc']}[stratum]
         derived = False
         depth = 2 if spec.get('circuits') else 1
         opnames = sorted({o for (_, o) in net.inst})
@@ -137,6 +138,16 @@ class C07(Check):
                                 'edge_vars': [[e[0], e[1], {'weight': rng.randint(-40, 40) / 16 or 0.5}]]})
             elif k == 'copy':
                 ops.append({'op': 'deepcopy_continue'})
+            elif k == 'fc':
+                # a compile of T itself (not in place) that FAILS inside code generation: disk error while the source file is
+                # written, or an interruption at an arbitrary internal call.  It must leave nothing behind that outlives it:
+                # later overrides still reach the compiled model
+                if rng.random() < 0.6:
+                    f = {'kind': 'io', 'target': 'src_write', 'nth': 1, 'errno': rng.choice(['ENOSPC', 'EIO', 'EACCES']),
+                         'short': rng.random() < 0.4}
+                else:
+                    f = {'kind': 'intr', 'at_call': rng.randint(200, 2500)}
+                ops.append({'op': 'failed_compile', 'fault': f, 'vectorize': rng.random() < 0.4})
         if not ops:
             n0, o0 = next(iter(net.inst))
             ops.append({'op': 'update_var', 'node_vars': {f'{n0}/{o0}/{models.LIB[net.inst[(n0, o0)]["lib"]]["state"][0]}': 1.5}})
@@ -271,6 +282,19 @@ class C07(Check):
                     obsv.submit(snapshot(w.objs[name_]), 'obs_both')
                     expected.append((f'after op #{k} adapt_circuit (source must be unchanged): circuit {name_}',
                                      copy.deepcopy(rf_), None))
+            elif op['op'] == 'failed_compile':
+                kw = {'in_place': False, 'vectorize': op['vectorize'], 'clear': True, 'float_precision': 'float64'}
+                out = w.do({'op': 'compile', 'obj': 'T', 'api': 'get_run_func', 'kw': kw, 'fault': op['fault']})
+                fired = sum(w.fired.values())
+                res['faults'] = dict(w.fired)
+                if out['status'] == 'ok':
+                    # the fault point lay beyond the end of the compile: it succeeded, which is KF-C07's precondition
+                    # (stale state after a SUCCESSFUL compile on the template itself) - stop the history here
+                    bump('fault_beyond_compile')
+                    break
+                bump('failed_compile')
+                obsv.submit(snapshot(w.objs['T']), 'obs_both')
+                expected.append((f'after op #{k} (a compile that failed: {op["fault"]["kind"]})', copy.deepcopy(ref), None))
             elif op['op'] == 'deepcopy_continue':
                 if spec.get('build') != 'yaml':      # (a YAML-loaded T stays the path-cached object for adapt-by-path)
                     w.objs['T'] = copy.deepcopy(w.objs['T'])
